@@ -1381,6 +1381,11 @@ def run_C19(tier, seed, res, drv, replay=None):
         base + [("newSeq", 0, [J(0), N, J(1)], J(4), None), ("newSeq", 1, [Q(0), J(2)], N, None), ("append", 1, [J(3)])],
         base + [("newSched", 5, [J(0)], N, None), ("newSeq", 0, [J(1), J(2)], N, 5), ("append", 0, [J(3), J(4)]), ("add", 5, Q(0)), ("update", 5, [J(0), Q(0)])],
         base + [("newSeq", 0, [], N, None), ("requires", 1, [Q(0)], False), ("seqRequires", 0, [J(2)])],
+        # schedulers that are still empty when they are used (an empty scheduler is falsy: __len__)
+        base + [("newSched", 5, [], N, None), ("newSeq", 0, [], N, 5), ("append", 0, [J(0), J(1)]), ("append", 0, [J(2)])],
+        base + [("newSched", 5, [], N, None), ("newSeq", 0, [N], N, 5), ("append", 0, [J(0)])],
+        base + [("newSched", 5, [], N, None), ("newSched", 6, [], N, None), ("requires", 0, [J(5), J(6)], False), ("newSeq", 0, [J(1), J(5), J(2)], J(6), None)],
+        base + [("newSched", 5, [], N, None), ("newJob", 6, J(5), 5), ("add", 5, J(0)), ("update", 5, [J(1), N])],
     ]
     for prog in corpus:
         c19_case(prog, 8, 3, res, batch, "corpus")
